@@ -28,6 +28,9 @@ structure Lawful {α : Type} (o : GroupOps α) (G : Type) [AddCommGroup G] where
   /-- negation flips the parity of y on non-zero elements (odd field characteristic) -/
   y_neg : ∀ P, abs P ≠ 0 → (o.y (o.neg P) % 2 = 0 ↔ ¬ (o.y P % 2 = 0))
   x_neg : ∀ P, o.x (o.neg P) = o.x P
+  /-- the parity of y is a function of the group element (affine representation is unique);
+      added by C16: needed to identify `liftX (x P)` with `P` or `-P` by the parity of `y P`. -/
+  y_congr : ∀ P Q, abs P = abs Q → abs P ≠ 0 → (o.y P % 2 = 0 ↔ o.y Q % 2 = 0)
   liftX_some : ∀ x P, o.liftX x = some P → abs P ≠ 0 ∧ o.x P = x ∧ o.y P % 2 = 0
   liftX_none : ∀ x, o.liftX x = none → ∀ P, abs P ≠ 0 → o.x P ≠ x
 
